@@ -11,10 +11,7 @@ NOT_APPLICABLE = {
  "C%02d" % i: "check not built yet in this round (work in progress; the technique applies, see DESIGN.md §5)" for i in range(1, 21)
 }
 
-TEXT = {
- "C11": {
-  "text": "Theorems for all 2^24 NetIDs x 2^32 DevAddrs: the model of SetAddrPrefix equals the addressing-rule value (prefix, NwkID = low bits of the ID field, NwkAddr untouched), IsNetID is exactly membership, NetID.Type/ID and DevAddr.NetIDType/NwkID agree with the layout; text/binary/sql round trips and wrong-length rejection for all k-byte identifiers. The model is tied to the code by differential cases evaluated in Coq.",
-  "note": "Trusted: Coq kernel + vm_compute; Base/Hex.v re-specifies encoding/hex and strings.TrimPrefix; the hand-written model Ident/Model.v is tied to fhdr.go/netid.go/payload.go/phypayload.go only through generated cases (8 types x boundary/random IDs and addresses, member/non-member addresses, malformed text). No axioms (Print Assumptions: closed under the global context).",
-  "technique": "Coq theorems (div/mod arithmetic via lia, bit lemmas, 256-case sweep lifted by forallb_forall) + differential correspondence evaluated with vm_compute",
- },
-}
+import json, glob, os
+TEXT = {}
+for f in sorted(glob.glob(os.path.join(os.path.dirname(os.path.abspath(__file__)), "cfg", "C*.json"))):
+    TEXT[os.path.basename(f)[:-5]] = json.load(open(f))["manifest"]
